@@ -297,7 +297,7 @@ func fillDerived(b []byte, hash uint64, id uint64, off int) {
 	}
 }
 
-var extSizes = []int{1, 4096, 1<<20 + 3, 2 << 20, 2<<20 + 1, 3<<20 - 1}
+var extSizes = []int{1, 4096, 1<<20 + 3, 2 << 20, 2<<20 + 1, 4 << 20}
 
 func extPlan(hash uint64) (ids []uint64, sizes []int) {
 	n := 1 + int(hash%2)
